@@ -219,6 +219,10 @@ class CallMixin:
                 args = [self.ev(a, st, ctx) for a in node.args]
                 kw = {k.arg: self.ev(k.value, st, ctx) for k in node.keywords}
                 return self.reg.externals[d](self, st, ctx, args, kw, node)
+            if head in st.locals and "." not in d and st.locals[head].ty.kind == "obj":
+                c = self.reg.contracts.get("%s.__call__" % st.locals[head].ty.args[0])
+                if c is not None:
+                    return self.call_contract(c, st.locals[head], node, st, ctx)
             if head not in st.locals and head not in st.ghost:
                 if ctx.spec:
                     h = getattr(self, "spec_" + d, None)
@@ -248,6 +252,10 @@ class CallMixin:
             base = self.ev(f.value, st, ctx)
             return self.call_method(base, f.attr, node, st, ctx)
         fv = self.ev(f, st, ctx)
+        if fv.ty.kind == "obj":
+            c = self.reg.contracts.get("%s.__call__" % fv.ty.args[0])
+            if c is not None:
+                return self.call_contract(c, fv, node, st, ctx)
         raise Unsupported("call of computed function (line %s)" % node.lineno)
 
     def args_of(self, node, st, ctx):
@@ -274,6 +282,10 @@ class CallMixin:
         if k == "val":
             # len(row value): list or string stored in a row
             return self.uf("len_val", [Val], I)(x.t)
+        if k == "obj":
+            f = self.uf("len_obj_" + x.ty.args[0], [I], I)
+            st.assume(f(x.t) >= 0)
+            return f(x.t)
         raise Unsupported("len of %r" % x.ty)
 
     def card(self, d, st):
